@@ -144,6 +144,10 @@ void ebpps_sample<T,A>::merge(FwdSample&& other) {
 
   if (c_frac == 0.0 && other_c_frac == 0.0) {
     partial_item_.reset();
+  } else if (c_ == std::floor(c_) && c_frac + other_c_frac < 0.5) {
+    // c_ is integral because the fractional parts were round-off residue that vanished in the sum
+    // (they add up to ~0, not to ~1): neither partial item may be promoted to a full item
+    partial_item_.reset();
   } else if (c_frac + other_c_frac == 1.0 || c_ == std::floor(c_)) {
     if (next_double() <= c_frac) {
       if (partial_item_)
